@@ -101,6 +101,9 @@ def run(ctx):
     # ------------------------------------------------------------------ R06.14
     rule_every_tag_reaches_simulator(ctx, mir)
 
+    # ------------------------------------------------------------------ R06.15
+    rule_scanner_handover(ctx, mir)
+
     ctx.not_decided += ["equality of event logs under handler sets H and H ∪ O as such (relation between two runs)"]
     return ("Rules on the hand-over between the tag scanner and the lexer: type-driven bookmark completeness, reset of sticky per-tag scratch on "
             "every continuing exit of finish_tag_name (CFG dominance), the stale-hint-flag protocol and once-per-tag tree-builder feedback.")
@@ -287,4 +290,31 @@ def rule_every_tag_reaches_simulator(ctx, mir, rid="R06.14"):
     r.inst("callers", sample={"callers": sorted(sites)})
     if len(sites) != 2 or any(v != {"get_feedback_for_start_tag", "get_feedback_for_end_tag"} for v in sites.values()):
         r.violate("callers", f"the simulator is consulted by {dict((k, sorted(v)) for k, v in sites.items())}; expected exactly one function in the lexer and one in the tag scanner, each reporting both start and end tags", "src/parser/tree_builder_simulator/mod.rs")
+
+
+def rule_scanner_handover(ctx, mir, rid="R06.15"):
+    """tag scanner -> lexer hand-over: the tag at which the switch happens is reported to the simulator exactly once"""
+    r = ctx.rule(rid, "a tag handed from the tag scanner to the lexer is reported to the tree-builder simulator once: every change_parser_directive(.., Lex, d) in the tag scanner passes d = ApplyUnhandledFeedback{..} or take_feedback_directive() (Skip / the parked text-type switch) - never a directive that makes the lexer ask again; the parked switch (pending_text_type_change) is written only by try_apply_tree_builder_feedback and consumed only by emit_tag / take_feedback_directive", "E-MIR operand provenance + who-may-write", floor=3)
+    n = 0
+    for f in mir.fns:
+        if mir.is_test_fn(f) or f.owner != "TagScanner":
+            continue
+        for bi, t in f.calls(r"change_parser_directive$"):
+            if len(t["args"]) < 4 or "ParserDirective::Lex" not in f.deep(t["args"][2]):
+                continue
+            n += 1
+            d = f.deep(t["args"][3])
+            key = f"{f.key}|hand-over#{n}"
+            r.inst(key, sample={"directive": d[:100]})
+            if not (d.startswith("parser::state_machine::FeedbackDirective::ApplyUnhandledFeedback{") or re.fullmatch(r"TagScanner::take_feedback_directive\(self\)", d)):
+                r.violate(key, f"{f.key} switches to the lexer with feedback directive `{d[:100]}`: unless it is the feedback just obtained or take_feedback_directive(), the lexer asks the simulator about the same tag a second time (a second namespace level is popped for nested <svg>/<math>) or loses the parked text-type switch", f.loc())
+    if n < 2:
+        raise EngineError(f"{rid}: fewer than 2 hand-over sites found in the tag scanner")
+    w = sorted(f.key for f in mir.fns if not mir.is_test_fn(f) and "TagScanner.pending_text_type_change" in sm.fields_written(f))
+    rd = sorted(f.key for f in mir.fns if not mir.is_test_fn(f) and "TagScanner.pending_text_type_change" in sm.fields_read(f))
+    r.inst("pending_text_type_change|writers", sample={"writers": w, "readers": rd})
+    if w != ["TagScanner::try_apply_tree_builder_feedback"]:
+        r.violate("pending_text_type_change|writers", f"TagScanner.pending_text_type_change is written by {w}; only try_apply_tree_builder_feedback may park a text-type switch (and nothing may drop it: HTML ignores `/>` on <script/>, <title/>, ...)", "src/parser/tag_scanner/mod.rs")
+    if rd != ["TagScanner::emit_tag[StateMachineActions]", "TagScanner::take_feedback_directive"]:
+        r.violate("pending_text_type_change|readers", f"TagScanner.pending_text_type_change is consumed by {rd}; expected emit_tag and take_feedback_directive only", "src/parser/tag_scanner/mod.rs")
 
